@@ -32,6 +32,10 @@ const R_ERR: i64 = -2;
 enum Kind {
     Err,
     Ok0,
+    /// one Interrupted answer when the offset is reached (the call before is cut short at the offset)
+    Intr,
+    /// only the short write that ends at the offset, no failure
+    Short,
 }
 
 #[derive(Clone, Copy, PartialEq, Debug)]
@@ -67,7 +71,13 @@ impl Plan {
             "chunk": match self.chunk { Chunk::Full => 0, Chunk::Fixed(c) => c as i64, Chunk::Random(m) => -(m as i64) },
             "intr": self.intr_every,
             "k": self.fail_at.map(|k| k as i64).unwrap_or(-1),
-            "kind": match (self.fail_at, self.kind) { (None, _) => "none", (_, Kind::Err) => "err", (_, Kind::Ok0) => "ok0" },
+            "kind": match (self.fail_at, self.kind) {
+                (None, _) => "none",
+                (_, Kind::Err) => "err",
+                (_, Kind::Ok0) => "ok0",
+                (_, Kind::Intr) => "intr",
+                (_, Kind::Short) => "short",
+            },
             "sticky": self.sticky,
         })
     }
@@ -99,6 +109,11 @@ impl Sink {
                 self.log.push((len, R_ERR));
                 Err(io::Error::new(io::ErrorKind::Other, "injected sink failure"))
             }
+            Kind::Intr => {
+                self.log.push((len, R_INTR));
+                Err(io::Error::new(io::ErrorKind::Interrupted, "injected EINTR"))
+            }
+            Kind::Short => unreachable!(),
         }
     }
     fn accept(&mut self, buf: &[u8], take: usize) -> io::Result<usize> {
@@ -137,7 +152,10 @@ impl Write for Sink {
         }
         let mut take = len;
         if let Some(k) = self.plan.fail_at {
-            if self.out.len() == k && (self.plan.sticky || !self.failed_once) {
+            // a sticky failure keeps failing; Interrupted is always one-shot (a sink that interrupts for ever
+            // makes every correct writer retry for ever)
+            let again = self.plan.sticky && matches!(self.plan.kind, Kind::Err | Kind::Ok0);
+            if self.out.len() == k && self.plan.kind != Kind::Short && (again || !self.failed_once) {
                 self.failed_once = true;
                 return self.fail(len, self.plan.kind);
             }
@@ -213,8 +231,78 @@ fn rand_obj(rng: &mut Rng, depth: u32, ids: &[(u32, u16)]) -> Object {
     }
 }
 
-/// A small document with a page tree and a few random objects.  `size` scales stream lengths.
-fn gen_doc(rng: &mut Rng, size: usize) -> Document {
+/// A literal string that takes write_string's slow path (some byte needs escaping): a marker
+/// `Snn:`, a plain run longer than every chunk size used, then runs of plain text (letters, blanks,
+/// LF, balanced parentheses) separated by backslashes, CRs and unbalanced parentheses; 20..=max bytes.
+fn esc_string(rng: &mut Rng, max: usize) -> Object {
+    let target = 20 + rng.below(max.max(21) - 19);
+    let mut s = format!("S{:02}:", rng.below(100)).into_bytes();
+    let plain = b"abcdefghijklmnopqrstuvwxyz ABCDEFGH 0123456789\n.,;-";
+    let mut first = true;
+    let mut sure = false;
+    while s.len() < target {
+        let run = if first { 17 + rng.below(24) } else { rng.below(32) };
+        first = false;
+        let mut j = 0;
+        while j < run {
+            if rng.chance(1, 12) {
+                s.extend_from_slice(b"(ok)");
+                j += 4;
+            } else {
+                s.push(*rng.pick(plain));
+                j += 1;
+            }
+        }
+        let e = *rng.pick(&[b'\\', b'\r', b')', b'(', b'\\', b'\r']);
+        sure |= e == b'\\' || e == b'\r';
+        s.push(e);
+        if rng.chance(1, 5) {
+            s.push(*rng.pick(&[b'\\', b')', b'\r'])); // adjacent escapes: empty run in between
+        }
+    }
+    s.truncate(target.max(24));
+    if !sure || !s.iter().any(|b| *b == b'\\' || *b == b'\r') {
+        let at = s.len() - 1 - rng.below(3);
+        s[at] = b'\\';
+    }
+    Object::String(s, StringFormat::Literal)
+}
+
+/// Byte ranges [start, end) of the literal strings made by `esc_string` that contain an escape, found
+/// in a saved file by their marker (plumbing for coverage accounting and for naming failing classes).
+fn esc_ranges(bytes: &[u8]) -> Vec<(usize, usize)> {
+    let mut out = vec![];
+    let mut i = 0;
+    while i + 5 < bytes.len() {
+        if bytes[i] == b'(' && bytes[i + 1] == b'S' && bytes[i + 2].is_ascii_digit() && bytes[i + 3].is_ascii_digit() && bytes[i + 4] == b':' {
+            let (mut j, mut depth, mut esc) = (i + 1, 1usize, false);
+            while j < bytes.len() && depth > 0 {
+                match bytes[j] {
+                    b'\\' => {
+                        esc = true;
+                        j += 1;
+                    }
+                    b'(' => depth += 1,
+                    b')' => depth -= 1,
+                    _ => {}
+                }
+                j += 1;
+            }
+            if esc && depth == 0 {
+                out.push((i, j.min(bytes.len())));
+                i = j;
+                continue;
+            }
+        }
+        i += 1;
+    }
+    out
+}
+
+/// A small document with a page tree, an Info dictionary and a few random objects.  `size` scales
+/// stream lengths, `strmax` the literal strings that need escaping (in the Info dictionary, the
+/// trailer, the page, a stream dictionary and an array).
+fn gen_doc(rng: &mut Rng, size: usize, strmax: usize) -> Document {
     let mut doc = Document::with_version(*rng.pick(&["1.4", "1.5", "1.7", "2.0"]));
     if rng.chance(1, 4) {
         doc.binary_mark = (0..rng.below(6)).map(|_| 128 + (rng.byte() & 0x7f)).collect();
@@ -230,7 +318,9 @@ fn gen_doc(rng: &mut Rng, size: usize) -> Document {
     let pages = (fresh(rng), 0u16);
     let page = (fresh(rng), 0u16);
     let content = (fresh(rng), 0u16);
-    let mut ids = vec![catalog, pages, page, content];
+    let info = (fresh(rng), 0u16);
+    let notes = (fresh(rng), 0u16);
+    let mut ids = vec![catalog, pages, page, content, info, notes];
     let extra = rng.below(4);
     let mut extra_ids = vec![];
     for _ in 0..extra {
@@ -252,16 +342,30 @@ fn gen_doc(rng: &mut Rng, size: usize) -> Document {
     p.set("Parent", Object::Reference(pages));
     p.set("MediaBox", Object::Array(vec![Object::Integer(0), Object::Integer(0), Object::Real(595.5), Object::Integer(842)]));
     p.set("Contents", Object::Reference(content));
+    p.set("Label", esc_string(rng, strmax));
     doc.objects.insert(page, Object::Dictionary(p));
+    let mut inf = Dictionary::new();
+    inf.set("Title", esc_string(rng, strmax));
+    inf.set("Subject", esc_string(rng, strmax / 2));
+    inf.set("Producer", Object::String(b"plain (balanced) text".to_vec(), StringFormat::Literal));
+    doc.objects.insert(info, Object::Dictionary(inf));
+    doc.objects.insert(
+        notes,
+        Object::Array(vec![esc_string(rng, strmax), Object::Integer(7), esc_string(rng, 40), Object::Name(b"N".to_vec())]),
+    );
     let clen = rng.below(1 + size);
     let body = if rng.chance(1, 2) { rand_bytes(rng, clen, b"BT ET 0 1 Tf (x) Tj\n") } else { rand_bytes(rng, clen, b"") };
-    doc.objects.insert(content, Object::Stream(Stream::new(Dictionary::new(), body)));
+    let mut cd = Dictionary::new();
+    cd.set("Desc", esc_string(rng, strmax / 2));
+    doc.objects.insert(content, Object::Stream(Stream::new(cd, body)));
     for id in extra_ids {
         let o = rand_obj(rng, 2, &ids);
         doc.objects.insert(id, o);
     }
     doc.max_id = ids.iter().map(|i| i.0).max().unwrap() + if rng.chance(1, 5) { 1 } else { 0 };
     doc.trailer.set("Root", Object::Reference(catalog));
+    doc.trailer.set("Info", Object::Reference(info));
+    doc.trailer.set("Note", esc_string(rng, strmax / 2));
     if rng.chance(1, 2) {
         let a = rand_bytes(rng, 4, b"");
         doc.trailer.set(
@@ -303,7 +407,7 @@ impl Saver {
 }
 
 /// base document saved and loaded, then an update: 1-2 objects replaced, 1-2 added
-fn make_incr(base: &Document, rng: &mut Rng) -> Result<IncrementalDocument, String> {
+fn make_incr(base: &Document, rng: &mut Rng, strmax: usize) -> Result<IncrementalDocument, String> {
     let mut b = Vec::new();
     let mut d0 = base.clone();
     match guarded(|| d0.save_to(&mut b)) {
@@ -330,15 +434,20 @@ fn make_incr(base: &Document, rng: &mut Rng) -> Result<IncrementalDocument, Stri
         for _ in 0..1 + rng.below(2) {
             if let Some(&id) = old.get(rng.below(old.len().max(1))) {
                 let _ = inc.opt_clone_object_to_new_document(id);
-                let o = rand_obj(rng, 2, &old);
+                let o = Object::Array(vec![esc_string(rng, strmax), rand_obj(rng, 2, &old)]);
                 inc.new_document.objects.insert(id, o);
             }
         }
         for _ in 0..1 + rng.below(2) {
             inc.new_document.max_id += 1;
             let id = (inc.new_document.max_id, 0);
-            let o = rand_obj(rng, 2, &old);
-            inc.new_document.objects.insert(id, o);
+            let mut d = Dictionary::new();
+            d.set("T", esc_string(rng, strmax));
+            d.set("K", rand_obj(rng, 2, &old));
+            inc.new_document.objects.insert(id, Object::Dictionary(d));
+        }
+        if rng.chance(1, 2) {
+            inc.new_document.trailer.set("Note2", esc_string(rng, strmax / 2));
         }
     });
     match r {
@@ -453,6 +562,7 @@ fn reference(cfg: usize, saver: &Saver, meta: &Value) -> Result<(Reference, Valu
         .unwrap_or(base);
     let tail = bytes.windows(10).rposition(|w| w == b"\nstartxref").unwrap_or(bytes.len());
     rec["marks"] = json!([base, body, doc.xref_start, tail]);
+    rec["esc"] = json!(esc_ranges(&bytes).iter().map(|r| json!([r.0, r.1])).collect::<Vec<_>>());
     rec["zcalls"] = json!(sink.zero_calls);
     Ok((Reference { cfg, bytes, w, content: content(&doc), memo: Default::default() }, rec))
 }
@@ -476,7 +586,18 @@ fn run(saver: &Saver, plan: Plan, rf: &Reference, seed: u64, full_log: bool, pha
             skip += 1;
         }
     }
-    let tail: Vec<Value> = sink.log[skip..].iter().map(|c| json!([c.0, c.1])).collect();
+    // ... and the longest common suffix (the log re-joins the reference program after the sink's misbehaviour)
+    let mut suf = 0;
+    if !full_log {
+        let (ll, wl) = (sink.log.len(), rf.w.len());
+        while suf < ll - skip && suf < wl - skip.min(wl) && {
+            let w = rf.w[wl - 1 - suf];
+            sink.log[ll - 1 - suf] == (w, w as i64)
+        } {
+            suf += 1;
+        }
+    }
+    let tail: Vec<Value> = sink.log[skip..sink.log.len() - suf].iter().map(|c| json!([c.0, c.1])).collect();
     let dpre = rf.bytes.starts_with(&sink.out);
     let mut later = json!({"res": "none", "load": "none", "same": false, "valid": false});
     if result == "err" {
@@ -505,7 +626,7 @@ fn run(saver: &Saver, plan: Plan, rf: &Reference, seed: u64, full_log: bool, pha
         }
     }
     let mut rec = json!({
-        "ev": "run", "cfg": rf.cfg, "phase": phase, "plan": plan.json(), "skip": skip, "tail": tail, "ncalls": sink.log.len(),
+        "ev": "run", "cfg": rf.cfg, "phase": phase, "plan": plan.json(), "skip": skip, "suf": suf, "tail": tail, "ncalls": sink.log.len(),
         "result": result, "dlen": sink.out.len(), "dpre": dpre, "later": later,
         "zcalls": sink.zero_calls, "flushes": sink.flushes,
     });
@@ -515,14 +636,14 @@ fn run(saver: &Saver, plan: Plan, rf: &Reference, seed: u64, full_log: bool, pha
     rec
 }
 
-fn configs(doc: &Document, rng: &mut Rng, di: usize) -> Vec<(Value, Result<Saver, String>)> {
+fn configs(doc: &Document, rng: &mut Rng, di: usize, strmax: usize) -> Vec<(Value, Result<Saver, String>)> {
     let mut out = vec![];
     for fmt in ["table", "stream"] {
         let mut d = doc.clone();
         d.reference_table.cross_reference_type =
             if fmt == "table" { XrefType::CrossReferenceTable } else { XrefType::CrossReferenceStream };
         out.push((json!({"doc": di, "fmt": fmt, "mode": "plain"}), Ok(Saver::Plain(d.clone()))));
-        out.push((json!({"doc": di, "fmt": fmt, "mode": "incr"}), make_incr(&d, rng).map(Saver::Incr)));
+        out.push((json!({"doc": di, "fmt": fmt, "mode": "incr"}), make_incr(&d, rng, strmax).map(Saver::Incr)));
     }
     out
 }
@@ -533,14 +654,15 @@ fn record(args: &[String]) {
     let first = arg_u64(args, "--first", 0) as usize;
     let combos = arg_u64(args, "--combos", 24) as usize;
     let size = arg_u64(args, "--size", 40) as usize;
+    let strmax = arg_u64(args, "--strmax", 300) as usize;
     let mut out = NdjsonOut::create(&arg(args, "--out").unwrap());
     let devfull = std::fs::OpenOptions::new().write(true).open("/dev/full").is_ok();
     let mut cfg = 0usize;
     for di in first..first + ndocs {
         // every document has its own stream, so that --first/--docs shards reproduce the same documents
         let mut rng = Rng::new(seed.wrapping_mul(0x1000_0000_01B3).wrapping_add(di as u64));
-        let doc = gen_doc(&mut rng, size);
-        for (meta, saver) in configs(&doc, &mut rng, di) {
+        let doc = gen_doc(&mut rng, size, strmax);
+        for (meta, saver) in configs(&doc, &mut rng, di, strmax) {
             cfg += 1;
             let id = di * 4 + (cfg - 1) % 4 + 1;
             let saver = match saver {
@@ -572,15 +694,18 @@ fn record(args: &[String]) {
                 sseed = sseed.wrapping_add(0x9E37_79B9);
                 sseed
             };
-            // every failure position x both failure kinds (transient: the sink is healthy again afterwards)
+            // every position x {hard error, zero-length write, Interrupted, short write} once (transient: the
+            // sink is healthy again afterwards); the call that crosses the position is cut short there
             for k in 0..n {
-                for kind in [Kind::Err, Kind::Ok0] {
+                for kind in [Kind::Err, Kind::Ok0, Kind::Intr, Kind::Short] {
                     let plan = Plan { chunk: Chunk::Full, intr_every: 0, fail_at: Some(k), kind, sticky: false, script: vec![] };
                     out.put(&run(&saver, plan, &rf, next_seed(), false, "offset"));
                 }
             }
             // chunkings, alone and with Interrupted before every n-th call
-            let chunks = [Chunk::Full, Chunk::Fixed(1), Chunk::Fixed(2), Chunk::Fixed(3), Chunk::Fixed(7), Chunk::Random(16)];
+            let chunks = [
+                Chunk::Full, Chunk::Fixed(1), Chunk::Fixed(2), Chunk::Fixed(3), Chunk::Fixed(7), Chunk::Fixed(13), Chunk::Random(16),
+            ];
             for (ci, chunk) in chunks.iter().enumerate() {
                 for intr in [0usize, 2, 3, 7] {
                     if *chunk == Chunk::Full && intr == 0 {
@@ -597,7 +722,7 @@ fn record(args: &[String]) {
                     chunk: *rng.pick(&chunks),
                     intr_every: *rng.pick(&[0usize, 0, 2, 3, 5]),
                     fail_at: Some(rng.below(n.max(1))),
-                    kind: if rng.chance(1, 2) { Kind::Err } else { Kind::Ok0 },
+                    kind: *rng.pick(&[Kind::Err, Kind::Ok0, Kind::Err, Kind::Ok0, Kind::Intr]),
                     sticky: rng.chance(1, 2),
                     script: vec![],
                 };
@@ -625,8 +750,8 @@ fn replay(args: &[String]) {
     let mut tries = 0;
     while cfgs.is_empty() && tries < 20 {
         tries += 1;
-        let doc = gen_doc(&mut rng, 24);
-        let all = configs(&doc, &mut rng, 0);
+        let doc = gen_doc(&mut rng, 24, 60);
+        let all = configs(&doc, &mut rng, 0, 60);
         let mut ok = vec![];
         for (i, (meta, saver)) in all.into_iter().enumerate() {
             if let Ok(s) = saver {
@@ -668,7 +793,7 @@ fn main() {
         Some("record") => record(&args),
         Some("replay") => replay(&args),
         _ => {
-            eprintln!("usage: c19 record --seed S --docs N [--first I] [--combos M] [--size B] --out F | replay --seed S --in F --out F");
+            eprintln!("usage: c19 record --seed S --docs N [--first I] [--combos M] [--size B] [--strmax L] --out F | replay --seed S --in F --out F");
             std::process::exit(2)
         }
     }
